@@ -130,7 +130,8 @@ def storeOfJson (j : Json) : Except String (Store Float32) := do
 
 /--
 * `{"op":"search","schema":[…],"segments":[[doc…]…],"req":{…}[,"compacted":true]}` → outcome of
-  `searchReq` (on `compactSegs segments` when `compacted`)
+  `searchReq` (on `afterCompact schema segments` when `compacted`; `"legacy": true` selects the
+  behaviour before the compaction fix, `legacyCompactSegs`)
 * `{"op":"plan","schema":[…],"req":{…}}` → the plan (`buildPlan` + `effectivePlan`)
 * `{"op":"graph","metric":…,"store":[vec|null…],"m":…,"efc":…}` → `buildGraph` on the prepared store
 * `{"op":"hnsw_search","metric":…,"store":…,"m":…,"efc":…,"q":[…],"k":…,"ef":…}` → `search` on that graph
@@ -145,13 +146,23 @@ def handle (req : Json) : Except String Json := do
       (← s.getArr?).toList.mapM sdocOf)
     let r ← reqOf (← req.getObjVal? "req")
     -- `"compacted": true` = the same request after `Index::compact`
-    let segs := if getBoolD req "compacted" false then compactSegs segs else segs
+    let segs := if getBoolD req "compacted" false then
+        (if getBoolD req "legacy" false then legacyCompactSegs segs else afterCompact schema segs)
+      else segs
     match searchReq schema segs r with
     | .error e => return Json.mkObj [("outcome", "error"), ("err", errName e)]
     | .textOnly => return Json.mkObj [("outcome", "text_only")]
     | .hits vo l =>
       return Json.mkObj [("outcome", "hits"), ("vector_only", vo),
                          ("hits", Json.arr (l.map hitJson).toArray)]
+  | "compact" =>
+    -- `{"op":"compact","schema":[…],"segments":[…]}` → is the call refused?
+    let schema ← schemaOf (← req.getObjVal? "schema")
+    let segs ← (← getArr req "segments").toList.mapM (fun s => do
+      (← s.getArr?).toList.mapM sdocOf)
+    match compact schema segs with
+    | none => return Json.mkObj [("outcome", "refused")]
+    | some l => return Json.mkObj [("outcome", "done"), ("segments", l.length)]
   | "plan" =>
     let schema ← schemaOf (← req.getObjVal? "schema")
     let r ← reqOf (← req.getObjVal? "req")
